@@ -68,10 +68,10 @@ fn r#gen(rng: &mut Rng, thorough: bool) -> Scn {
             if fin == 1 {
                 let pad = rng.below(3);
                 s.set_num("pad", pad as u128);
-                s.set_num("rest", rng.below(4) as u128);
+                s.set_num("rest", if rng.chance(1, 6) { 9 + rng.below(56) } else { rng.below(4) } as u128);
                 s.set_num("tail", if pad == 2 { 0 } else { rng.below(g) } as u128);
             } else if fin == 2 {
-                s.set_num("rest", rng.below(4) as u128);
+                s.set_num("rest", if rng.chance(1, 6) { 9 + rng.below(56) } else { rng.below(4) } as u128);
                 s.set_num("tail", rng.below(bs) as u128);
             }
             for who in 0..2u8 {
